@@ -125,5 +125,13 @@ CLAIMS = {
           'That the parser stores the right offsets in the right fields is decided by execution on every accepted input (generated programs in random layouts with multi-byte characters, tabs, CR LF, multi-line raw strings and comments before the checked tokens; corpus; mutants; soup; 19 exhaustive context streams; the same files read from disk with CR LF and BOM): the implementation tree is walked BY TYPE (schema extracted from ast.rs each run) and every position field must name the lexeme of the constraint table, bracket pairs ordered and strictly containing their contents, siblings in source order. Partial proof.',
   'note': 'Unconstrained by the property and not judged: LabeledStmt.pos, FuncType.pos of interface method elements (0), ChannelType.pos.1 without arrow, File.line_info.',
  },
+ 'C06': {
+  'category': 'proof',
+  'technique': 'Lean 4 lemmas on the token-consuming primitives (expect, identifier) + accounting oracle on every accepted file among valid programs, 1-3 token mutants, soup and exhaustive context streams',
+  'text': 'Proved for every parser state: expect(k) succeeds only on a current token of kind k and returns its offset, fails on any other token or at end of input; the identifier leaf parser builds its leaf from the current token only. '
+          'The whole-file statement is decided by execution: whenever the implementation accepts a file (generated valid programs, single- and multi-token deletions / insertions / duplications / swaps of them and of the corpus, token soup, all short token sequences in the file-level syntactic contexts), '
+          'the identifier and literal leaves of its tree must equal the identifier and literal tokens of the crate\'s own scanner on that source (text, offset, each once), brackets must be balanced and the package clause / imports must come first. One violation found this way (`switch a b {}` dropped `a`) was repaired; the earlier `import "a" 42` defect is a fixed entry. Partial proof.',
+  'note': 'Balanced consumption as a Hoare-style invariant over all productions is not proved yet.',
+ },
 }
 NOT_CLAIMED = {}
